@@ -306,6 +306,8 @@ pub fn run_history(name: &str, toks: &[String]) -> String {
     match name {
         "states" => run_states(toks),
         "defrag" => run_defrag(toks),
+        #[cfg(feature = "serialize")]
+        "@ser" => crate::ser::run_ser(toks),
         "@nt" => run_nt(toks.get(0).map(|s| s.as_str()).unwrap_or(""), num(1)),
         "@conv" => run_conv(toks.get(0).map(|s| s.as_str()).unwrap_or(""), num(1)),
         "@sig" => { let s = SignatureScheme(num(0) as u16); format!("(sig {} {} {})", s.hash_alg(), s.sign_alg(), s.is_reserved()) }
